@@ -33,7 +33,7 @@ Wrong(c, q, o) ==
   ELSE IF e.kind = "pool" /\ ~o.hasfile THEN "save wrote no file"
   ELSE IF e.kind = "pool" /\ o.out # o.file \o "\n" THEN "list does not show the text that save writes"
   ELSE IF e.kind = "pool" /\ q.pool = <<>> /\ o.file # "" THEN "the text of an empty pool is not empty"
-  ELSE IF e.kind = "file" /\ o.out # ftext[c.f] THEN "load does not echo the text of the file"
+  ELSE IF e.kind = "file" /\ o.out # e.out \o ftext[c.f] THEN "load does not echo the text of the file (after what the context had still to show: " \o e.out \o ")"
   ELSE IF c.c = "save" /\ ~o.hasfile THEN "save wrote no file"
   ELSE IF c.c \in {"save", "list"} /\ \E r \in seen : r.ids = Ids(q.pool) /\ r.text # o.file THEN "the same statements were written as a different text before"
   ELSE ""
